@@ -483,8 +483,20 @@ impl BRC20ProgEngine {
                 tx.gas_limit = gas_limit;
             });
 
+            #[cfg(feature = "verif")]
+            crate::verif_hooks::record_env(
+                "add_tx_to_block",
+                &evm.ctx_ref().block,
+                &evm.ctx_ref().cfg,
+                &evm.ctx_ref().tx,
+                evm.precompiles.op_return_tx_id,
+                evm.precompiles.verif_txid_registered(),
+            );
+
             let tx = evm.ctx().tx().clone();
             let output = evm.inspect_tx_commit(tx);
+            #[cfg(feature = "verif")]
+            crate::verif_hooks::record_result("add_tx_to_block", &output);
 
             core::mem::swap(&mut *db, evm.ctx().db_mut());
 
@@ -799,7 +811,19 @@ impl BRC20ProgEngine {
                 tx.gas_limit = gas_limit.unwrap_or(CONFIG.read().evm_call_gas_limit);
             });
 
+            #[cfg(feature = "verif")]
+            crate::verif_hooks::record_env(
+                "read_contract",
+                &evm.ctx_ref().block,
+                &evm.ctx_ref().cfg,
+                &evm.ctx_ref().tx,
+                evm.precompiles.op_return_tx_id,
+                evm.precompiles.verif_txid_registered(),
+            );
+
             let output = evm.replay().map(|x| x.result);
+            #[cfg(feature = "verif")]
+            crate::verif_hooks::record_result("read_contract", &output);
             core::mem::swap(&mut *db, evm.ctx().db_mut());
 
             output.map_err(|e| e.into())
@@ -871,8 +895,19 @@ impl BRC20ProgEngine {
                             .unwrap_or(CONFIG.read().evm_call_gas_limit)
                     });
                 });
+                #[cfg(feature = "verif")]
+                crate::verif_hooks::record_env(
+                    "read_contract_multi",
+                    &evm.ctx_ref().block,
+                    &evm.ctx_ref().cfg,
+                    &evm.ctx_ref().tx,
+                    evm.precompiles.op_return_tx_id,
+                    evm.precompiles.verif_txid_registered(),
+                );
                 let tx = evm.ctx().tx().clone();
                 let result = evm.transact_one(tx);
+                #[cfg(feature = "verif")]
+                crate::verif_hooks::record_result("read_contract_multi", &result);
                 match result {
                     Ok(output) => outputs.push(output),
                     Err(e) => {
